@@ -117,7 +117,7 @@ def int_elem(dt, mag=None):
     lo, hi = _INFO[dt]
     if mag is not None:
         lo, hi = max(lo, -mag), min(hi, mag)
-    notable = sorted({v for v in (lo, hi, 0, 1, -1, 2, 3, lo + 1, hi - 1, 7, -7, 100, -100, hi // 2, lo // 2) if lo <= v <= hi})
+    notable = sorted({v for v in (lo, hi, 0, 1, -1, 2, 3, lo + 1, hi - 1, 7, -7, 100, -100, hi // 2, lo // 2, hi // 2 + 1, 2**53, 2**53 + 1, -2**53 - 1) if lo <= v <= hi})
     return st.one_of(st.sampled_from(notable), st.integers(max(lo, -9), min(hi, 9)), st.integers(lo, hi))
 
 
@@ -221,8 +221,13 @@ def rowsel(n, norepeat=False, allow_bad_int=True):
                 else:
                     base = base[i:] + base[:i]
                 return base
-            lst = st.one_of(st.lists(st.integers(-n, n - 1), max_size=n + 3), st.lists(st.integers(-n, n - 1), max_size=n + 3),
-                            st.tuples(st.integers(0, 3), st.integers(0, 50), st.integers(0, 50)).map(perturbed))
+            good = st.lists(st.integers(-n, n - 1), max_size=n + 3)
+            alts_l = [good, good, good, st.tuples(st.integers(0, 3), st.integers(0, 50), st.integers(0, 50)).map(perturbed)]
+            if allow_bad_int:
+                # one entry just outside [-n, n): the whole selection must be refused
+                alts_l.append(st.tuples(good, st.sampled_from([n, n + 1, -n - 1, -n - 2, 2 * n + 3]), st.integers(0, 50)).map(
+                    lambda t: t[0][:t[2] % (len(t[0]) + 1)] + [t[1]] + t[0][t[2] % (len(t[0]) + 1):]))
+            lst = st.one_of(*alts_l)
     else:
         lst = st.just([])
     alts.append(st.tuples(lst, st.sampled_from(["list", "int64", "int64", "int32", "intp"])).map(lambda t: ["l", t[0], t[1]]))
